@@ -6,6 +6,7 @@
 //!   lv_store child <dir>                 internal: one database lifetime (see child.rs)
 //!   lv_store script <dir>                debugging aid: commands from stdin, `restart` re-spawns the child
 mod child;
+mod crash;
 mod dbproc;
 mod gen;
 mod hist;
